@@ -33,6 +33,7 @@ TECH = {
  "R28": "argument provenance of per-segment Get calls in Log.Get",
  "R29": "shape of the index timestamp derivation",
  "R30": "taint analysis from time.Now() to branch conditions reachable from query methods",
+ "R32": "dominance of an index lookup over every opening of a segment's log file",
 }
 
 TEXT = {
